@@ -1,14 +1,111 @@
-(* C04 (small matchers) - stub used while confirming the defects on the unrepaired tree *)
+(* C04 - No remote input makes a matcher panic or allocate without bound: the small matchers
+   (ssh, xmpp, postgres, proxy_protocol, socks4, socks5, regexp gate, tls record gate, http
+   request-line gate, clock, remote_ip/local_ip, not).  For every configuration and every byte
+   string the model's verdict is not Panic and what it asks make() for is at most
+   16 * layer4.MaxMatchingBytes.  Property theorems only (lemmas: proofs/MatchSmallProofs.v). *)
 From Coq Require Import String.
 From Coq Require Import List NArith ZArith Bool.
 From Coq.Strings Require Import Byte.
 From L4 Require Import Hex.
+From L4.gen Require Import Consts.
 From L4.model Require Import GoBase MatchSmall.
+From L4.proofs Require Import MatchSmallLemmas MatchSmallProofs.
 Import ListNotations.
 
-Theorem C04_postgres_v0_no_panic_refuted : exists p, fst (pg_run_v0 p) = Panic.
-Proof. exists (unhex "00000004"). vm_compute. reflexivity. Qed.
-Theorem C04_postgres_v0_alloc_refuted : exists p, (alloc_bound < snd (pg_run_v0 p))%N.
-Proof. exists (unhex "00000003"). vm_compute. reflexivity. Qed.
+(* the bound is the generated constant *)
+Theorem C04_bound_is_16_max : alloc_bound = (16 * Z.to_N layer4_MaxMatchingBytes)%N.
+Proof. exact eq_refl. Qed.
+
+Theorem C04_ssh_no_panic : never_panics ssh_match.
+Proof. exact ssh_no_panic. Qed.
+Theorem C04_ssh_alloc : forall p, (snd (ssh_run p) <= alloc_bound)%N.
+Proof. exact ssh_alloc. Qed.
+
+Theorem C04_xmpp_no_panic : never_panics xmpp_match.
+Proof. exact xmpp_no_panic. Qed.
+Theorem C04_xmpp_alloc : forall p, (snd (xmpp_run p) <= alloc_bound)%N.
+Proof. exact xmpp_alloc. Qed.
+
+(* postgres: holds because the source has the three bounds checks (generated facts) *)
+Theorem C04_postgres_no_panic : never_panics pg_match.
+Proof. exact pg_no_panic. Qed.
+Theorem C04_postgres_alloc : forall p, (snd (pg_run p) <= alloc_bound)%N.
+Proof. exact pg_alloc. Qed.
+(* the tree before commits 4d39c67 / 4ad343d: same transcription without the checks *)
+Theorem C04_postgres_v0_no_panic_refuted :
+  fst (pg_run_v0 (unhex "00000004")) = Panic /\ fst (pg_run_v0 (unhex "0000000c0003000075736572")) = Panic.
+Proof. exact (conj pg_v0_panics_short pg_v0_panics_unterminated). Qed.
+Theorem C04_postgres_v0_alloc_refuted : (alloc_bound < snd (pg_run_v0 (unhex "00000003")))%N.
+Proof. exact pg_v0_alloc_underflow. Qed.
+(* rejecting only length < 4 would not have been enough *)
+Theorem C04_postgres_length_floor_only_alloc_refuted :
+  (alloc_bound < snd (pg_run_gen false true true (unhex "ffffffff")))%N.
+Proof. exact pg_len_only_alloc. Qed.
+
+Theorem C04_proxy_protocol_no_panic : never_panics pp_match.
+Proof. exact pp_no_panic. Qed.
+Theorem C04_proxy_protocol_alloc : forall p, (snd (pp_run p) <= alloc_bound)%N.
+Proof. exact pp_alloc. Qed.
+
+Theorem C04_socks4_no_panic : forall cfg, never_panics (socks4_match cfg).
+Proof. exact socks4_no_panic. Qed.
+Theorem C04_socks4_alloc : forall cfg p, (snd (socks4_run cfg p) <= alloc_bound)%N.
+Proof. exact socks4_alloc. Qed.
+
+Theorem C04_socks5_no_panic : forall auth, never_panics (socks5_match auth).
+Proof. exact (fun auth => socks5_gen_no_panic s5_chk_zero auth). Qed.
+Theorem C04_socks5_alloc : forall auth p, (snd (socks5_run auth p) <= alloc_bound)%N.
+Proof. exact (fun auth => socks5_gen_alloc s5_chk_zero auth). Qed.
+
+(* regexp: for every regex engine that is a total function; Count is a uint16 *)
+Theorem C04_regexp_no_panic : forall re count, never_panics (regexp_match re count).
+Proof. exact regexp_no_panic. Qed.
+Theorem C04_regexp_alloc : forall re count p, (count < 65536)%N -> (snd (regexp_run re count p) <= alloc_bound)%N.
+Proof. exact regexp_alloc. Qed.
+
+(* tls record gate: for every total inner ClientHello predicate *)
+Theorem C04_tls_gate_no_panic : forall inner, never_panics (tls_match inner).
+Proof. exact tls_no_panic. Qed.
+Theorem C04_tls_gate_alloc : forall inner p, (snd (tls_run inner p) <= alloc_bound)%N.
+Proof. exact tls_alloc. Qed.
+
+Theorem C04_http_gate_no_panic : never_panics http_gate.
+Proof. exact http_gate_no_panic. Qed.
+
+Theorem C04_clock_no_panic : forall ab now, clock_match ab now <> Panic.
+Proof. exact clock_no_panic. Qed.
+Theorem C04_ip_no_panic : forall cidrs a, ip_match cidrs a <> Panic.
+Proof. exact ip_no_panic. Qed.
+Theorem C04_not_no_panic : forall sets p,
+  Forall (fun ms => Forall (fun m : matcher => m p <> Panic) ms) sets -> not_match sets p <> Panic.
+Proof. exact not_no_panic. Qed.
+
+(* non-vacuity: the models do reach every verdict, and the allocation depends on the input *)
+Example C04_nonvacuous :
+  pg_match (unhex "0000000804d2162f") = Yes /\ pg_match (unhex "00000004") = No /\
+  pg_match (unhex "0000000c0003000075736572") = No /\ pg_match (unhex "0000000800020000") = Fail /\
+  pg_match (unhex "00000010") = More /\ snd (pg_run (unhex "00000010")) = 16%N /\
+  snd (tls_run (fun _ => true) (unhex "160301ffff")) = 65540%N /\
+  socks5_match [0%N] (unhex "050100") = Yes /\ http_gate (unhex "474554202f20485454502f312e310d0a") = Yes.
+Proof. vm_compute. repeat split; reflexivity. Qed.
+
+Print Assumptions C04_ssh_no_panic.
+Print Assumptions C04_ssh_alloc.
+Print Assumptions C04_xmpp_no_panic.
+Print Assumptions C04_xmpp_alloc.
+Print Assumptions C04_postgres_no_panic.
+Print Assumptions C04_postgres_alloc.
 Print Assumptions C04_postgres_v0_no_panic_refuted.
 Print Assumptions C04_postgres_v0_alloc_refuted.
+Print Assumptions C04_proxy_protocol_no_panic.
+Print Assumptions C04_proxy_protocol_alloc.
+Print Assumptions C04_socks4_no_panic.
+Print Assumptions C04_socks4_alloc.
+Print Assumptions C04_socks5_no_panic.
+Print Assumptions C04_socks5_alloc.
+Print Assumptions C04_regexp_no_panic.
+Print Assumptions C04_regexp_alloc.
+Print Assumptions C04_tls_gate_no_panic.
+Print Assumptions C04_tls_gate_alloc.
+Print Assumptions C04_http_gate_no_panic.
+Print Assumptions C04_not_no_panic.
